@@ -15,24 +15,32 @@ from . import common as C
 from .c18 import _locals_from_config
 
 ID = 'C02'
-TECHNIQUE = ('predicate-tracking typestate over the statement CFG of zero_angle (a return is reached only with an '
-             'error measured with the returned elevation and known to be within the accuracy), effect summaries for '
-             'the stored zero, abstract evaluation of the aim-point geometry and of the stored-zero round trip')
+TECHNIQUE = ('predicate-tracking typestate over the statement CFG of zero_angle (a return is reached only '
+             'with an error measured with the returned elevation and known to be within the accuracy), effect'
+             ' summaries for the stored zero, abstract evaluation of set_weapon_zero around a recorder of the'
+             ' search, of one pass of the zero loop with the integration replaced by a symbolic row, and of '
+             'the stored-zero round trip')
 DECIDED = [
     'R1 zero_angle returns only in states where the error was computed from a trajectory integrated with the '
-    'returned elevation and the test `error > accuracy` (accuracy from this calculator\'s Config) is known false; every '
-    'other exit raises; the value returned is the elevation measured; what the search loop tests and advances '
-    '(error, iteration count) has a definition inside zero_angle that reaches the loop, so no budget is carried over '
-    'from an earlier call',
-    'R2 nothing reachable from barrel_elevation_for_target stores into the shot; set_weapon_zero\'s only store is '
-    'weapon.zero_elevation = <the call that may raise>, so a failed attempt leaves the stored zero untouched',
+    "returned elevation and the test `error > accuracy` (accuracy from this calculator's Config) is known "
+    'false; every other exit raises; the value returned is the elevation measured; what the search loop tests'
+    ' and advances (error, iteration count) has a definition inside zero_angle that reaches the loop, so no '
+    'budget is carried over from an earlier call',
+    'R2 nothing reachable from barrel_elevation_for_target stores into the shot; set_weapon_zero evaluated '
+    'around a recorder of the search: when the search starts every field of the shot and of the weapon is '
+    'still the object it was, afterwards the weapon holds the elevation found, so a failed attempt leaves the'
+    ' shot untouched',
     'R3 the stored zero is (total elevation - look angle) and an un-canted shot without hold-over fires at '
     'look + zero = the elevation found',
-    'R4 the aim point is (cos(look) d, sin(look) d) for look-distance d; the error is |height there - aim height|; '
-    'the trajectory is integrated to that horizontal distance',
+    'R4 by evaluation of the statements before the loop and of one pass of the loop body (_integrate replaced'
+    ' by a recorder handing back a row whose height is a symbol in metres, the distance given in yards): the '
+    'shot given is integrated to cos(look) d in feet, and after the pass the error is |row height in feet - '
+    'sin(look) d| on every path',
 ]
-NOT_DECIDED = ['that the fixed-point iteration converges within the iteration cap for every reachable target; the '
-               'numerical closeness of the fired trajectory to the sight line']
+NOT_DECIDED = [
+    'that the fixed-point iteration converges within the iteration cap for every reachable target; the '
+    'numerical closeness of the fired trajectory to the sight line',
+]
 
 
 def run(prog: Program, rep, thorough: bool) -> None:
